@@ -410,6 +410,8 @@ func (ex *Exec) execInstr(fr *Frame, st *State, in ssa.Instruction) {
 		fr.regs[in] = m
 
 	case *ssa.MakeChan:
+		// at makechan[#k]: $0 the capacity
+		ex.atObligations(fr, st, "makechan", in, map[string]*Value{"$0": ex.eval(fr, st, in.Size)})
 		fr.regs[in] = &Value{T: in.Type(), C: []*Term{ex.newRef(st)}}
 
 	case *ssa.MakeClosure:
@@ -634,7 +636,8 @@ func (ex *Exec) execUnOp(fr *Frame, st *State, in *ssa.UnOp) *Value {
 		return &Value{T: in.Type(), C: []*Term{ex.wrap(tb.Sub(tb.Neg(x.C[0]), tb.Int(1)), in.Type())}}
 	case token.ARROW:
 		ch := ex.eval(fr, st, in.X)
-		_ = ch
+		// at recv[#k]: $0 the channel received from
+		ex.atObligations(fr, st, "recv", in, map[string]*Value{"$0": ch})
 		et := in.X.Type().Underlying().(*types.Chan).Elem()
 		v, facts := ex.havoc(et, "recv")
 		ex.assume(st, facts)
